@@ -366,6 +366,22 @@ theorem conflict_reported {c : Client} {trace : List LightBlock} {b : LightBlock
         ptrace ≠ [] → ∃ ev, (c.primary.id, ev) ∈ c'.evidence ∧ ev.conflicting = wb.hash) :=
   handle_attack hw hex hne hpne
 
+/-- **evidence_fields.** What `newLightClientAttackEvidence` puts into the evidence is what a full
+node re-derives from its own chain (`evidence.VerifyLightClientAttack`, `ValidateABCI`, block time):
+for a lunatic attack height, time and total voting power of the COMMON block; for equivocation and
+amnesia (conflicting header with the trusted header's validator / next-validator / consensus / app /
+results hashes) those of the TRUSTED block at the attack height. -/
+theorem evidence_fields (conflicted trusted common : LightBlock) :
+    (conflictingHeaderIsInvalid trusted.hdr conflicted.hdr = true →
+      (mkEvidence conflicted trusted common).commonHeight = common.height ∧
+      (mkEvidence conflicted trusted common).totalPower = common.vals.totalPower ∧
+      (mkEvidence conflicted trusted common).timestamp = common.time) ∧
+    (conflictingHeaderIsInvalid trusted.hdr conflicted.hdr = false →
+      (mkEvidence conflicted trusted common).commonHeight = trusted.height ∧
+      (mkEvidence conflicted trusted common).totalPower = trusted.vals.totalPower ∧
+      (mkEvidence conflicted trusted common).timestamp = trusted.time) := by
+  constructor <;> intro h <;> simp [mkEvidence, h]
+
 /-- **conflict_reported** (detector level). When the next reply to arrive is a conflicting header and
 the handler reports an error for it, the cross-check stops with that error: no later reply —
 matching or not — can turn it into a confirmation. -/
